@@ -15,11 +15,11 @@ class Engine:
     def __init__(self, repo=None):
         self.m = Model(repo)
         self.r = Resolver(self.m)
+        # pass 1: every partial operation may raise
         self.R0 = Raises(self.m, self.r)
         self.R = self.R0
-        self.I = Interp(self.m, self.r, self.R)
+        self.I = Interp(self.m, self.r, self.R0)
         self._fsm = None
-        self._disch = None
         self._interps = {}
         n = len(self.m.modules)
         if n < FLOORS['modules'] or len(self.m.funcs) < FLOORS['functions'] \
@@ -37,6 +37,15 @@ class Engine:
                      'func')}:
             raise AnalysisError('external calls without a summary line: %r'
                                 % sorted(set(self.R0.unsummarised))[:8])
+        # pass 2: discharge partial operations by guards and shape facts,
+        # then recompute the escape sets and the path interpreter with them
+        from .discharge import Discharger
+        self.fsm        # built on the pass-1 interpreter
+        self.D = Discharger(self)
+        self.R = Raises(self.m, self.r, discharged=self.D.reasons)
+        self.I0 = self.I
+        self.I = Interp(self.m, self.r, self.R)
+        self._interps = {}
 
     @property
     def fsm(self):
@@ -45,19 +54,21 @@ class Engine:
             self._fsm = FSM(self)
         return self._fsm
 
-    def interp(self, inline, depth=2, key=None):
+    def interp(self, inline, depth=2, key=None, fork_raises=True):
         """A path interpreter that inlines the callees selected by `inline`
-        (a set of qualified names or a predicate)."""
+        (a set of qualified names or a predicate).  With fork_raises=False
+        only the normal flow (and explicit raises) is enumerated."""
         if isinstance(inline, (set, frozenset, list, tuple)):
             names = frozenset(inline)
-            k = (names, depth)
+            k = (names, depth, fork_raises)
             pred = lambda fi, d: fi.qual in names   # noqa: E731
         else:
-            k = (key or id(inline), depth)
+            k = (key or id(inline), depth, fork_raises)
             pred = inline
         if k not in self._interps:
             self._interps[k] = Interp(self.m, self.r, self.R, inline=pred,
-                                      max_depth=depth)
+                                      max_depth=depth,
+                                      fork_raises=fork_raises)
         return self._interps[k]
 
     def base_counts(self, ctx):
@@ -66,3 +77,5 @@ class Engine:
         ctx.record('calls_resolved', '%d/%d' % (
             self.r.stats['calls'] - self.r.stats['unknown'],
             self.r.stats['calls']))
+        ctx.record('partial_ops_discharged', '%d/%d' % (
+            len(self.D.reasons), len(self.D.reasons) + len(self.D.open)))
